@@ -32,6 +32,7 @@ type Program struct {
 	StrList []string
 	Specs   map[string]*FuncSpec // by function key
 	Preds   map[string]*PredDef  // by "pkg.Name" and "Name" within pkg
+	Funs    map[string]*FunDef   // recursive spec functions by "pkg.Name"
 	Lemmas  []*LemmaDef
 	GlobTab map[*ssa.Global]*GlobalTable
 	ErrGlobals []*ssa.Global
@@ -106,7 +107,7 @@ func loadProgram(repo string, extraPkgs ...string) (*Program, error) {
 	prog.Build()
 	P := &Program{Repo: repo, Fset: prog.Fset, Pkgs: map[string]*packages.Package{}, SSA: prog,
 		SPkgs: map[string]*ssa.Package{}, Funcs: map[string]*ssa.Function{}, Impl: map[string]types.Type{},
-		Strings: map[string]int{}, Specs: map[string]*FuncSpec{}, Preds: map[string]*PredDef{},
+		Strings: map[string]int{}, Specs: map[string]*FuncSpec{}, Preds: map[string]*PredDef{}, Funs: map[string]*FunDef{},
 		GlobTab: map[*ssa.Global]*GlobalTable{}}
 	for i, p := range pkgs {
 		P.Pkgs[p.Name] = p
